@@ -36,6 +36,7 @@ def main():
         for p in props:
             env = dict(os.environ)
             env.setdefault("VERIF_SEED", "0")
+            env["VERIF_NO_EVIDENCE"] = "1"   # evidence/<id>.json describes the unchanged tree only
             c = subprocess.run([os.path.join(VERIF, "checks", "run.py"), p, "--tier", tier], cwd=VERIF, capture_output=True, text=True, env=env)
             viol = [l for l in c.stdout.split("\n") if l.startswith("VIOLATION")]
             results[p] = (c.returncode, viol)
